@@ -179,6 +179,9 @@ def _run_case(ctx, case, rng):
     elif kind == "newstr":
         spec = case["fmt"]
         f = obs.build(spec)
+        if case.get("onto_empty"):
+            from curtsies.formatstring import fmtstr as _fmtstr
+            f = _fmtstr("") + f          # as sum(parts, fmtstr('')) builds it: an empty, attribute-less first run
         F = obs.spec_cells(spec)
         new = case["new"]
         fmt = obs.spec_cells([["x", spec[0][1]]])[0][1:]     # all runs share these attributes
@@ -283,7 +286,8 @@ def run(ctx):
         a = obs.rand_atts(rng)
         runs = [["".join(rng.choice("abc") for _ in range(rng.randint(0, 3))), dict(a)]
                 for _ in range(rng.randint(1, 3))]
-        run_case(ctx, {"kind": "newstr", "fmt": runs, "new": rng.choice(["", "x", "hello", "一\n"])})
+        run_case(ctx, {"kind": "newstr", "fmt": runs, "new": rng.choice(["", "x", "hello", "一\n"]),
+                       "onto_empty": rng.random() < .3})
         spec = obs.rand_spec(rng, 4, 3, "abc")
         if spec:
             run_case(ctx, {"kind": "shared", "fmt": spec})
